@@ -138,7 +138,7 @@ def monitor(rig, t_before, stores_near):
     return out
 
 
-def part_a_case(rig, code, ptr, spv, F, with_int=None):
+def part_a_case(rig, code, ptr, spv, F, with_int=None, pc=0x8000):
     """One inductive step.  Returns list of monitor failures."""
     sim = rig.sim
     r = sim.registers
@@ -153,26 +153,29 @@ def part_a_case(rig, code, ptr, spv, F, with_int=None):
     r[12] = spv
     r[14] = 0x3F
     r[15] = 0x7F
-    r[24] = 0x8000
+    r[24] = pc
     r[25] = 1000
     r[26] = 1
     r[27] = 1
     # the IM 2 vector (I = 0x3F -> 0x3FFF/0x4000) exercises the vector read across the edge
     near = set()
+    if pc > 0xFFF0:
+        # the operand bytes actually fetched wrap into the ROM
+        code = tuple(code[:0x10000 - pc]) + tuple(rig.mem[a] for a in range(len(code) - (0x10000 - pc)))
     for p in (ptr, spv, (code[1] + 256 * code[2]) if len(code) > 2 else 0, (code[2] + 256 * code[3]) if len(code) > 3 else 0):
         for d in range(-3, 4):
             near.add((p + d) & 0xFFFF)
     for d in (-128, 127, 5, 0x85 - 256, 0xFE - 256, -2, -1):
         near.add((ptr + d) & 0xFFFF)
     rig.touched.update(a for a in near if a >= 0x4000)
-    rig.poke(0x8000, code)
+    rig.poke(pc, code[:0x10000 - pc] if pc > 0xFFF0 else code)      # the bytes beyond 0xFFFF are whatever the ROM holds
     t0 = 1000
     if with_int is not None:
         r[27] = with_int
-        r[24] = 0x8001
-        sim.accept_interrupt(r, sim.memory, 0x8000)
+        r[24] = (pc + 1) & 0xFFFF
+        sim.accept_interrupt(r, sim.memory, pc)
     else:
-        sim.run(0x8000)
+        sim.run(pc)
     out = monitor(rig, t0, near)
     rig.restore()
     return out
@@ -218,6 +221,27 @@ def part_a(stats, shard, nshards, tier):
                                     cid = 'A/{}/{}/{}/ptr{:04X}/sp{:04X}/F{:02X}'.format(machine, kind, ''.join('%02X' % b for b in code), ptr, spv, F)
                                     stats.violation(cid, {'part': 'A', 'machine': machine, 'kind': kind, 'code': list(code), 'ptr': ptr, 'sp': spv, 'F': F},
                                                     '; '.join(d[:3]), tags={'part': 'A', 'machine': machine, 'kind': kind, 'b0': code[0], 'b1': code[1]}, order=order)
+                # the instruction itself placed across the 64K edge (return addresses, PC+n, operand fetches wrap), with
+                # the stack in RAM just below the edge and at the ROM/RAM edge
+                for n1, n2 in (NN_FILLS[1], NN_FILLS[3]) if takes_nn else ((0x01, 0x00), (0x80, 0x00)):
+                    if ddcb:
+                        code = (code0[0], 0xCB, n1, code0[3])
+                    elif prefixed:
+                        code = (code0[0], code0[1], n1, n2)
+                    else:
+                        code = (code0[0], n1, n2, 0x56)
+                    for pc in (0xFFFD, 0xFFFE, 0xFFFF):
+                        for ptr in (0xFFFC, 0x4001):
+                            for F in (0x00, 0xFF):
+                                d = part_a_case(rig, code, ptr, ptr, F, pc=pc)
+                                stats.evaluations += 1
+                                stats.transitions += 1
+                                stats.counters['A_pc_at_64K_edge'] += 1
+                                order += 1
+                                if d:
+                                    cid = 'A/{}/{}/{}/pc{:04X}/ptr{:04X}/F{:02X}'.format(machine, kind, ''.join('%02X' % b for b in code), pc, ptr, F)
+                                    stats.violation(cid, {'part': 'A', 'machine': machine, 'kind': kind, 'code': list(code), 'ptr': ptr, 'sp': ptr, 'F': F, 'pc': pc},
+                                                    '; '.join(d[:3]), tags={'part': 'A', 'machine': machine, 'kind': kind, 'b0': code[0], 'b1': code[1], 'pc': pc}, order=order)
                 # whole-memory scan after this slot: nothing outside the touched cells changed, all cells in range
                 if not rig.cells_ok():
                     stats.violation('A/{}/{}/{}/cells'.format(machine, kind, ''.join('%02X' % b for b in code0)),
@@ -676,7 +700,7 @@ def run(tier, seed):
 def replay(case):
     if case['part'] == 'A':
         rig = MonRig(case['kind'], case['machine'])
-        return part_a_case(rig, tuple(case['code']), case['ptr'], case['sp'], case['F'], with_int=case.get('int'))
+        return part_a_case(rig, tuple(case['code']), case['ptr'], case['sp'], case['F'], with_int=case.get('int'), pc=case.get('pc', 0x8000))
     if case['part'] == 'B':
         return check_edge(case['binding'], tuple(case['src']), case['decoded'], case['v'], tuple(case['dst']), case['way'])
     return history_case(case['binding'], [tuple(w) for w in case['writes']])
